@@ -80,13 +80,27 @@ class Mxl(Stream):
 
     def gen(self, rng, n):
         from harness.props.C11 import fix_relative
-        for i in range(n):
+        def draw(i):
             sc = sg.rand_score(rng, max_chords=4, cont=0.3 if i % 2 else 0.15, rel=0.15, systems="sssshhccbba")
             sc = [dict(c, parts=[[nm, notes] for nm, notes in c["parts"] if not nm.startswith("drums")] or
                        [["piano__0", [sg.rand_rnote(rng, rest=0, cont=0, rel=0, systems="s")]]]) for c in sc]
             for c in sc:
                 c["toct"] = rng.choice([0, 0, -1]); c["coct"] = rng.choice([0, 0, 1, -1])
-            yield {"score": fix_relative(no_gap_continuation(sc))}
+            return fix_relative(no_gap_continuation(sc))
+
+        def in_range(sc):
+            # music21 folds a pitch outside 0..127 back by octaves; the model (and the statement) stay inside the MIDI range
+            try:
+                return all(0 <= 60 + p <= 127 for evs in sg.spec_sounding(sc).values() for p, o, d, v in evs)
+            except Exception:
+                return True
+        for i in range(n):
+            sc = draw(i)
+            for _ in range(20):
+                if in_range(sc):
+                    break
+                sc = draw(i)
+            yield {"score": sc}
 
     def impl(self, case):
         def f():
